@@ -36,8 +36,8 @@ def save_meta(prop, m, meta):
         f.write("\n")
 
 
-def cmd_import(prop, m):
-    src = f"/tmp/seedout/{prop}"
+def cmd_import(prop, m, srcroot="/tmp/seedout"):
+    src = f"{srcroot}/{prop}"
     os.makedirs(d(prop, m), exist_ok=True)
     shutil.copy(f"{src}/{m}.diff", os.path.join(d(prop, m), "patch.diff"))
     shutil.copy(f"{src}/{m}_demo.diff", os.path.join(d(prop, m), "demo.diff"))
@@ -111,7 +111,7 @@ if __name__ == "__main__":
         print(__doc__)
         sys.exit(2)
     if a[0] == "import":
-        cmd_import(a[1], a[2])
+        cmd_import(a[1], a[2], *(a[3:4]))
     elif a[0] == "confirm":
         cmd_confirm(a[1], a[2])
     elif a[0] == "detect":
